@@ -173,6 +173,16 @@ def crafted():
     b = bytearray(d)
     tail = bytes(x or 1 for x in b[last + 1:])
     out.append(("dex", bytes(b[:last + 1]) + tail, "crafted:no-zero-behind-last-string"))
+    # binary XML whose names are long runs of valid name characters with an invalid one at the end / in the middle / dotted:
+    # the time to clean a name up must not depend on where the invalid character sits (no event budget sees a regular
+    # expression backtracking: these inputs are bounded by the wall-clock alarm only)
+    from ..axmlgen import Axml
+    for label, nm in (("run+bad", "a" * 64 + "!"), ("long-run+bad", "b" * 300 + "?"), ("dotted+bad", "a.b-c_d" * 12 + "#"), ("bad+run", "!" + "c" * 200),
+                      ("alternating", "a!" * 60)):
+        for where in ("tag", "attribute"):
+            doc = dict(tag=nm if where == "tag" else "x", ns=None, children=[],
+                       attrs=[dict(name=nm if where == "attribute" else "y", ns=None, resid=None, type=3, value="v")])
+            out.append(("axml", Axml(doc, [], False).build(), "crafted:name-%s-%s" % (label, where)))
     for off, nm in ((0x38, "string_ids_size"), (0x40, "type_ids_size"), (0x48, "proto_ids_size"), (0x50, "field_ids_size"), (0x58, "method_ids_size"), (0x60, "class_defs_size")):
         for v in (0xFFFFFFFF, 0x7FFFFFFF, 0x00FFFFFF):
             b = bytearray(d)
@@ -212,8 +222,9 @@ def run(chk):
     for gi, why in res["rejects"]:
         p, d, name = items[gi]
         cl = "+".join(sorted(w.split(".", 1)[1] for w in why[0]))
-        path = os.path.join("/verif/replay", "C35_input_%s_%d.bin" % (chk.tier, gi))
-        os.makedirs("/verif/replay", exist_ok=True)
+        from ..core import REPLAY
+        path = os.path.join(REPLAY, "C35_input_%s_%d.bin" % (chk.tier, gi))
+        os.makedirs(REPLAY, exist_ok=True)
         with open(path, "wb") as fh:
             fh.write(d)
         kind = name.split(":", 1)[1].split("@")[0].split("+")[0]
